@@ -28,7 +28,8 @@ pub fn components_table() -> serde_json::Value {
             "host_model": host_model_json(),
             "js_host_leg_of_C14": json_file("hostleg.json"),
             "js_host_leg_of_C10": json_file("hostdet.json"),
-            "end_to_end_leg_of_C14": json_file("e2eleg.json")
+            "end_to_end_leg_of_C14": json_file("e2eleg.json"),
+            "end_to_end_leg_of_C10": json_file("e2edet.json")
         },
         "stub": [
             "bundler.ts host functions + commandeer.ts watch loop + chokidar + tsc-slim resolveModuleName -> SimHost / deliver(f) / resolve_in (written from the sources, cache lifetime and resolver answers checked against the real code by js/hostprobe.mjs)",
